@@ -42,17 +42,14 @@ package main
 // d = DNS bidirectional, e = DNS unidirectional; families 4 | 6 | 46.
 
 import (
-	"bufio"
 	"bytes"
 	"encoding/binary"
-	"encoding/json"
 	"fmt"
 	"io"
 	"net"
 	"net/http"
 	"os"
-	"os/exec"
-	"path/filepath"
+	"reflect"
 	"runtime"
 	"sort"
 	"strconv"
@@ -60,12 +57,9 @@ import (
 	"sync"
 	"sync/atomic"
 	"syscall"
-	"testing"
 	"time"
 
-	"github.com/refraction-networking/conjure/internal/vlib"
 	"github.com/refraction-networking/conjure/pkg/core"
-	"github.com/refraction-networking/conjure/pkg/registrars/dns-registrar/encryption"
 	"github.com/refraction-networking/conjure/pkg/registrars/dns-registrar/requester"
 	pb "github.com/refraction-networking/conjure/proto"
 	log "github.com/sirupsen/logrus"
@@ -120,6 +114,7 @@ type c13mEnv struct {
 	handlerGID                int64
 	exited                    atomic.Value // string: the process was asked to exit (logrus ExitFunc)
 	secretCtr                 atomic.Uint64
+	dnsPool                   chan *requester.Requester
 }
 
 func c13mWrite(path string, data []byte) error {
@@ -203,6 +198,9 @@ func c13mFeed(path string, content []byte, gated bool) *c13mFeeder {
 				time.Sleep(200 * time.Microsecond)
 			}
 		}
+		if !gated {
+			f.released.Store(true)
+		}
 		f.opened.Store(true)
 		w := os.NewFile(uintptr(fd), path)
 		if gated {
@@ -211,9 +209,11 @@ func c13mFeed(path string, content []byte, gated bool) *c13mFeeder {
 			case <-f.cancel:
 			}
 		}
+		// `released` is set before the content is written (by open / stop): from then on the reader is not
+		// considered held at this pipe any more
+		f.released.Store(true)
 		_, _ = w.Write(f.content)
 		_ = w.Close()
-		f.released.Store(true)
 	}()
 	return f
 }
@@ -224,6 +224,7 @@ func (f *c13mFeeder) open() {
 	if f == nil {
 		return
 	}
+	f.released.Store(true)
 	select {
 	case <-f.release:
 	default:
@@ -464,9 +465,11 @@ func c13mCalibrate() error {
 	return nil
 }
 
-func c13mIsRepo(text string) bool {
-	return strings.Contains(text, "refraction-networking/conjure/pkg/") || strings.Contains(text, "\nmain.")
-}
+// c13mMainPkg: the name the package under test has in stack traces of the test binary ("…/cmd/regserver")
+var c13mMainPkg = func() string {
+	n := runtime.FuncForPC(reflect.ValueOf(main).Pointer()).Name()
+	return strings.TrimSuffix(n, ".main")
+}()
 
 // which sync operation a blocked goroutine waits in, and the innermost function of the repository on its stack
 func c13mWhere(text string) (string, string) {
@@ -481,7 +484,7 @@ func c13mWhere(text string) (string, string) {
 	}
 	fn := ""
 	for _, ln := range strings.Split(text, "\n") {
-		if strings.HasPrefix(ln, "github.com/refraction-networking/conjure/pkg/") || (strings.HasPrefix(ln, "main.") && !strings.Contains(ln, "c13m")) {
+		if strings.HasPrefix(ln, "github.com/refraction-networking/conjure/pkg/") || (strings.HasPrefix(ln, c13mMainPkg+".") && !strings.Contains(ln, "c13m")) {
 			fn = ln
 			if i := strings.LastIndex(fn, "("); i > 0 {
 				fn = fn[:i]
@@ -605,6 +608,7 @@ func (k c13mKind) frame() string {
 type c13mReq struct {
 	id      string
 	kind    c13mKind
+	started atomic.Bool
 	done    atomic.Bool
 	outcome string // full canonical outcome
 	judged  string // what the oracle compares: answered or not, and the version(s) of the subnet file
@@ -708,17 +712,30 @@ func (e *c13mEnv) perform(r *c13mReq) {
 		}
 		r.outcome, r.judged = "ok:"+a+":cc="+cc, "ok:"+a
 	default:
-		rq, err := requester.NewRequester(&requester.Config{TransportMethod: requester.UDP, Target: fmt.Sprintf("127.0.0.1:%d", e.dnsPort), BaseDomain: c13mDomain, Pubkey: e.dnsPub})
-		if err != nil {
-			r.outcome, r.judged = "harness:"+err.Error(), "harness"
-			return
+		// Requesters are reused (one exchange at a time each): the library leaves the send loop of a requester
+		// behind for good, so a requester per request would fill the process with goroutines.
+		var rq *requester.Requester
+		select {
+		case rq = <-e.dnsPool:
+		default:
+			var err error
+			rq, err = requester.NewRequester(&requester.Config{TransportMethod: requester.UDP, Target: fmt.Sprintf("127.0.0.1:%d", e.dnsPort), BaseDomain: c13mDomain, Pubkey: e.dnsPub})
+			if err != nil {
+				r.outcome, r.judged = "harness:"+err.Error(), "harness"
+				return
+			}
 		}
 		r.dns = rq
 		raw, err := rq.RequestAndRecv(body)
-		_ = rq.Close()
 		if err != nil {
+			_ = rq.Close()
 			r.outcome, r.judged = "noanswer:"+err.Error(), "noanswer"
 			return
+		}
+		select {
+		case e.dnsPool <- rq:
+		default:
+			_ = rq.Close()
 		}
 		dr := &pb.DnsResponse{}
 		if err := proto.Unmarshal(raw, dr); err != nil {
